@@ -64,6 +64,8 @@ func bases() []base {
 	out = append(out, base{name: "ki-two-graphs", two: true, where: []bqlm.Clause{cl(bt("?s"), pc("ki"), bt("?v"))}, proj: []bqlm.Proj{pj("?s"), pj("?v")}, keys: []string{"?v", "?s"}})
 	// aggregate outputs
 	out = append(out, base{name: "agg", where: []bqlm.Clause{cl(bt("?s"), pc("kn"), bt("?v"))}, proj: []bqlm.Proj{pj("?v"), {Binding: "?s", Op: "count", Alias: "?c"}}, group: []string{"?v"}, keys: []string{"?c", "?v"}})
+	// grouping over a pattern of three plain bindings (the only pattern whose LIMIT may be handed to the driver — not when it groups)
+	out = append(out, base{name: "agg-all", where: []bqlm.Clause{cl(bt("?s"), bt("?p"), bt("?o"))}, proj: []bqlm.Proj{pj("?s"), {Binding: "?o", Op: "count", Alias: "?c"}, {Binding: "?p", Op: "count", Distinct: true, Alias: "?d"}}, group: []string{"?s"}, keys: []string{"?s", "?c"}})
 	// two grouping keys listed in GROUP BY in another order than in the SELECT list (the text column does not order the
 	// subjects the way the int64 column does)
 	out = append(out, base{name: "agg2", where: []bqlm.Clause{cl(bt("?s"), pc("ki"), bt("?v")), cl(bt("?s"), pc("kt"), bt("?w"))}, proj: []bqlm.Proj{pj("?v"), pj("?w"), {Binding: "?s", Op: "count", Alias: "?c"}}, group: []string{"?w", "?v"}, keys: []string{"?w", "?v"}})
